@@ -23,8 +23,8 @@ from ..tlaval import parse, read_dump
 
 PROP = "C14"
 BOUNDS = {
-    "quick": dict(sigma="ab", N=5, K=4, gsigma="ab", gN=5, gK=4, rnd=1500, hK=4),
-    "thorough": dict(sigma="ab", N=6, K=4, gsigma="abc", gN=5, gK=4, rnd=20000, hK=6),
+    "quick": dict(sigma="ab", N=5, K=4, gsigma="ab", gN=5, gK=4, rnd=1500, hK=5),
+    "thorough": dict(sigma="ab", N=6, K=4, gsigma="abc", gN=5, gK=4, rnd=20000, hK=7),
 }
 
 
